@@ -283,6 +283,23 @@ def needle_cores(run, m, F, E):
         p2, p3, und = [], [], []
         confirmed = {}
         nb = nfound = nnull = 0
+        # the rule reads an iteration as: look for the first unit, compare at the hit, resume behind it.  A loop that is rotated
+        # (compares the candidate found earlier, then looks for the next one at the bottom) states the same facts across the
+        # back edge; that form is not analysed
+        rotated = False
+        for o in outs:
+            if o.kind != 'backedge':
+                continue
+            b, e, evs, hdr = loop_view(o, f)
+            ks = [k for k, x in enumerate(evs) if x[0] == 'search']
+            kc = [k for k, x in enumerate(evs) if x[0] == 'cmp']
+            if ks and kc and kc[0] < ks[0]:
+                rotated = True
+        if rotated:
+            und.append('the scan loop compares first and looks for the next candidate afterwards (rotated form): its step facts are not analysed')
+            verdict(run, 'R07.2', f, [], und, '', 'needle core')
+            verdict(run, 'R07.3', f, [], und, '', 'needle core')
+            continue
         for o in outs:
             s2 = o.st
             b, e, evs, hdr = loop_view(o, f)
